@@ -72,7 +72,7 @@ struct IVal {
   IVal(IVal &&o) noexcept : v(o.v) { R.ctor(this); R.moved_from(&o); }
   ~IVal() { R.dtor(this); }
   IVal &operator=(const IVal &o) { v = o.v; return *this; }
-  IVal &operator=(IVal &&o) noexcept { v = o.v; return *this; }
+  IVal &operator=(IVal &&o) noexcept { v = o.v; R.moved_from(&o); return *this; }
   explicit operator uint64_t() const { return v; }
 };
 inline uint64_t keyval(const IKey &k) { return k.v; } // found by ADL from the templates in access.hh
@@ -150,6 +150,19 @@ static std::string run_op(Tbl &t, std::unique_ptr<LT> &lt, const OpSpec &o) {
       // contract: consumed exactly when inserted (insert_or_assign assigns from the value on a duplicate: it may move it)
       bool okc = (km == r) && (o.kind == "ioamv" ? (r ? vm : true) : vm == r);
       return okc ? res : "ARGS " + res + " (arguments must be consumed exactly when the call inserts)";
+    }
+    // C16: arguments passed as LVALUES are never consumed, whatever the call does (insert, duplicate, assign)
+    if (o.kind == "inslv" || o.kind == "ioalv" || o.kind == "upslv" || o.kind == "ltinslv") {
+      IKey kk(o.a); IVal vv(o.b);
+      bool r;
+      if (o.kind == "inslv") r = t.insert(kk, vv);
+      else if (o.kind == "ioalv") r = t.insert_or_assign(kk, vv);
+      else if (o.kind == "upslv") r = t.upsert(kk, [&](IVal &x) { x.v += 1; }, vv);
+      else { if (!lt) return "nolt"; r = lt->insert(kk, vv).second; }
+      bool km = R.is_husk(&kk), vm = R.is_husk(&vv);
+      std::string res = std::string(r ? "1" : "0") + " moved=" + (km ? "1" : "0") + "," + (vm ? "1" : "0");
+      if (km || vm || kk.v != o.a || vv.v != o.b) return "ARGS " + res + " (an lvalue argument was moved from or modified)";
+      return res;
     }
     // C16: lookups through a compatible non-key type must agree with key_type lookups and construct no key
     if (o.kind == "findp" || o.kind == "erasep" || o.kind == "updp" || o.kind == "containsp") {
